@@ -205,13 +205,17 @@ def main(run: Run):
         obs = []
         for f in action_l1.ALL:
             fv = f()
-            run.functions[f"amaranth_soc.{fv.qualname} [statements issued, every shape]"] = f"proved ({fv.paths} paths, {len(fv.obs)} obligations)"
+            run.functions[f"amaranth_soc.{fv.qualname} [{'constructor' if fv.qualname.endswith('__init__') else 'statements issued'}, every shape]"] = f"proved ({fv.paths} paths, {len(fv.obs)} obligations)"
             obs += fv.obs
         run.require("csr.action.RW1C.elaborate::bit-set-by-its-set-input-AFTER-the-clear(setting-wins)",
                     "csr.action.RW1S.elaborate::bit-set-by-writing-a-one-AFTER-the-clear(setting-wins)",
                     "csr.action.RW1C.elaborate::nothing-else-per-bit", "csr.action.RW.elaborate::storage-takes-the-written-value",
                     "csr.action.R.elaborate::read-data-passed-to-the-bus", "csr.action.W.elaborate::write-strobe-passed-from-the-bus",
-                    "csr.action._Reserved.elaborate::nothing-else-outside-the-bit-loop", "csr.action._Reserved.elaborate::no-submodule")
+                    "csr.action._Reserved.elaborate::nothing-else-outside-the-bit-loop", "csr.action._Reserved.elaborate::no-submodule",
+                    "csr.action.RW.__init__::one-storage-signal-with-the-shape-and-the-init-value-as-given",
+                    "csr.action.RW1C.__init__::one-storage-signal-with-the-shape-and-the-init-value-as-given",
+                    "csr.action.RW1S.__init__::one-storage-signal-with-the-shape-and-the-init-value-as-given",
+                    "csr.action.R.__init__::access-mode-is-r", "csr.action.W.__init__::access-mode-is-w", "csr.action._Reserved.__init__::access-mode-is-nc")
         run.assumptions += BASE_ASSUMPTIONS_L1 + [
             "field action contracts: Amaranth objects are recording stubs (which statements are issued, in which order, under which If, on which "
             "bit); Value.cast is the identity on bits; last-assignment-wins and 'an unassigned register bit keeps its value' are Amaranth's "
